@@ -26,6 +26,8 @@ pub enum FsFault {
     WriteOnce(u64, Kind),
     /// The n-th `write` call and all later ones fail.
     WriteFrom(u64, Kind),
+    /// Reads fail once the file offset has reached this position (sticky).
+    ReadAt(u64, Kind),
 }
 
 #[derive(Clone, Debug, Serialize, Deserialize, PartialEq, Eq)]
@@ -65,6 +67,7 @@ pub struct FsCounters {
     pub seek_failed: u64,
     pub full_hits: u64,
     pub write_failed: u64,
+    pub read_failed: u64,
     /// Offsets at which failing writes were attempted (for probes).
     pub fail_offsets: Vec<u64>,
 }
@@ -163,9 +166,14 @@ impl FsBackend for SimFs {
         let (path, pos, readable) = { let h = st.handles.get(&handle).ok_or_else(|| io::Error::new(ErrorKind::Other, "sdsim: bad handle"))?; (h.path.clone(), h.pos as usize, h.read) };
         if !readable { return Err(io::Error::new(ErrorKind::PermissionDenied, "sdsim: not open for reading")); }
         let limit = st.plan.chunk.limit(call, pos);
+        let mut room = usize::MAX;
+        if let Some(FsFault::ReadAt(at, kind)) = st.plan.fault {
+            if pos as u64 >= at { st.io.err += 1; st.counters.read_failed += 1; st.io.note(b'E', 0); return Err(injected(kind)); }
+            room = (at - pos as u64) as usize;
+        }
         let file = st.files.get(&path).ok_or_else(|| io::Error::new(ErrorKind::NotFound, "sdsim: file vanished"))?;
         if pos >= file.len() { st.io.eof += 1; return Ok(0); }
-        let n = buf.len().min(file.len() - pos).min(limit);
+        let n = buf.len().min(file.len() - pos).min(limit).min(room);
         buf[..n].copy_from_slice(&file[pos..pos + n]);
         st.handles.get_mut(&handle).unwrap().pos += n as u64;
         if n < buf.len() { st.io.short += 1; }
